@@ -352,6 +352,8 @@ esl_msafile_psiblast_Write(FILE *fp, const ESL_MSA *msa)
 		  is_residue   = esl_abc_XIsResidue(msa->abc, msa->ax[i][pos+bpos+1]);
 		  if (msa->rf) is_consensus = (isalnum(msa->rf[pos + bpos]) ? TRUE : FALSE);
 		  else         is_consensus = (esl_abc_XIsResidue(msa->abc, msa->ax[0][pos+bpos+1]) ? TRUE : FALSE);
+
+		  if (sym == 'O') sym = esl_abc_CGetUnknown(msa->abc); /* the PSI-BLAST reader rejects O/o (see SetInmap); write pyrrolysine as the unknown residue, as the A2M writer does */
 				      
 		  if (is_consensus) { buf[bpos] = (is_residue ? toupper(sym) : '-'); }
 		  else              { buf[bpos] = (is_residue ? tolower(sym) : '-'); }
@@ -366,6 +368,8 @@ esl_msafile_psiblast_Write(FILE *fp, const ESL_MSA *msa)
 		  is_residue   = isalnum(sym);
 		  if (msa->rf) is_consensus = (isalnum(msa->rf[pos + bpos]) ? TRUE : FALSE);
 		  else         is_consensus = (isalnum(msa->aseq[0][pos+bpos]) ? TRUE : FALSE);
+
+		  if (sym == 'O' || sym == 'o') sym = 'X';
 
 		  if (is_consensus) { buf[bpos] = (is_residue ? toupper(sym) : '-'); }
 		  else              { buf[bpos] = (is_residue ? tolower(sym) : '-'); }
